@@ -154,3 +154,45 @@ package types
 //@   allocates Account, uint256.Int
 //@   ensures items_same()
 //@   ensures result != nil ==> result == acctof(h, content(addr), exec ? 1 : 0) && result.Balance != nil && balowner(result.Balance) == result && isbal(result.Balance)
+
+// ---- decoding a transaction and building its context ---------------------------------------------
+
+//@ func (p ITrxPayload) Decode(bz)
+//@   modifies allof(TrxPayloadUnstaking), allof(TrxPayloadWithdraw), allof(TrxPayloadProposal), allof(TrxPayloadVoting), allof(TrxPayloadContract), allof(TrxPayloadSetDoc)
+//@   allocates uint256.Int
+
+//@ func (tx *Trx) fromProto(txProto)
+//@   nopanic
+//@   requires tx != nil && txProto != nil
+//@   modifies tx.*, allof(TrxPayloadUnstaking), allof(TrxPayloadWithdraw), allof(TrxPayloadProposal), allof(TrxPayloadVoting), allof(TrxPayloadContract), allof(TrxPayloadSetDoc)
+//@   allocates uint256.Int, TrxPayloadUnstaking, TrxPayloadWithdraw, TrxPayloadProposal, TrxPayloadVoting, TrxPayloadContract, TrxPayloadSetDoc
+//@   ensures result == nil ==> wf_tx(tx) && fresh(tx.Amount) && fresh(tx.GasPrice) && tx.Amount != tx.GasPrice   [C09]
+//@   ensures forall r :: !fresh(r) ==> u(r) == old(u(r))                                                     [C09]
+
+//@ func (tx *Trx) Decode(bz)
+//@   nopanic
+//@   requires tx != nil
+//@   modifies tx.*, allof(TrxPayloadUnstaking), allof(TrxPayloadWithdraw), allof(TrxPayloadProposal), allof(TrxPayloadVoting), allof(TrxPayloadContract), allof(TrxPayloadSetDoc)
+//@   allocates uint256.Int, TrxPayloadUnstaking, TrxPayloadWithdraw, TrxPayloadProposal, TrxPayloadVoting, TrxPayloadContract, TrxPayloadSetDoc
+//@   ensures result == nil ==> wf_tx(tx) && fresh(tx.Amount) && fresh(tx.GasPrice) && tx.Amount != tx.GasPrice   [C09]
+//@   ensures forall r :: !fresh(r) ==> u(r) == old(u(r))                                                     [C09]
+
+// the callbacks handed to NewTrxContext fill in the handlers of the context they are given
+//@ func (cb NewTrxContextCb) call(ctx)
+//@   requires ctx != nil
+//@   modifies ctx.TxIdx, ctx.TrxGovHandler, ctx.TrxAcctHandler, ctx.TrxStakeHandler, ctx.TrxEVMHandler, ctx.GovHandler, ctx.AcctHandler, ctx.StakeHandler, ctx.ChainID, BlockContext.txsCnt
+//@   ensures result == nil ==> ctx.TrxGovHandler != nil && ctx.TrxAcctHandler != nil && ctx.TrxStakeHandler != nil && ctx.TrxEVMHandler != nil && ctx.GovHandler != nil && ctx.AcctHandler != nil
+
+//@ func NewTrxContext(txbz, height, btime, exec, cbfns)
+//@   nopanic
+//@   requires len(cbfns) >= 1 && (forall i :: 0 <= i && i < len(cbfns) ==> cbfns[i] != nil)
+//@   modifies BlockContext.txsCnt, allmaps(memItems.gotItems), itemkey, itemenc, allof(TrxPayloadUnstaking), allof(TrxPayloadWithdraw), allof(TrxPayloadProposal), allof(TrxPayloadVoting), allof(TrxPayloadContract), allof(TrxPayloadSetDoc)
+//@   allocates TrxContext, Trx, Account, uint256.Int, TrxPayloadUnstaking, TrxPayloadWithdraw, TrxPayloadProposal, TrxPayloadVoting, TrxPayloadContract, TrxPayloadSetDoc
+//@   ensures (result1 == nil) <==> (result0 != nil)                                                           [C09]
+//@   ensures result1 == nil ==> fresh(result0) && wf_ctx(result0) && result0.GasUsed == 0 && result0.Exec == exec && result0.Height == height   [C09,C03]
+//@   ensures result1 == nil ==> result0.Sender == acctof(result0.AcctHandler, content(result0.Tx.From), exec ? 1 : 0)   [C04]
+//@   ensures forall r :: !fresh(r) ==> as(r, ptr(Account)).Nonce == old(as(r, ptr(Account)).Nonce) && u(r) == old(u(r))   [C05,C06]
+//@   loop 0: invariant txctx != nil && txctx.Tx == tx && txctx.Exec == exec && txctx.GasUsed == 0 && txctx.Height == height && len(txctx.TxHash) == 32 && txctx.TxHash != nil && wf_tx(tx) && fresh(tx.Amount) && fresh(tx.GasPrice) && fresh(txctx) && tx.Amount != tx.GasPrice
+//@   loop 0: invariant rangeindex >= 0 ==> txctx.TrxGovHandler != nil && txctx.TrxAcctHandler != nil && txctx.TrxStakeHandler != nil && txctx.TrxEVMHandler != nil && txctx.GovHandler != nil && txctx.AcctHandler != nil
+//@   loop 0: invariant forall r :: !fresh(r) ==> as(r, ptr(Account)).Nonce == old(as(r, ptr(Account)).Nonce) && u(r) == old(u(r))
+//@   loop 0: modifies txctx.TxIdx, txctx.TrxGovHandler, txctx.TrxAcctHandler, txctx.TrxStakeHandler, txctx.TrxEVMHandler, txctx.GovHandler, txctx.AcctHandler, txctx.StakeHandler, txctx.ChainID, BlockContext.txsCnt
